@@ -276,7 +276,7 @@ pub fn eval(e: &Expr, s: &MStore) -> Ev {
       let x = |i: usize| vals[i].as_f64().unwrap();
       match f.as_str() {
         "inc" => Ev::Val(SV::f64(x(0) + 1.0)),
-        "addtwo" => Ev::Val(SV::f64(x(0) + x(1))),
+        "addtwo" => Ev::Val(SV::f64((x(0) + 0.0) + x(1))), // the body's own order: p := x + 0; z := p + y (matters for -0.0)
         // binds its input and a local, then fails on an undefined variable
         "bad" => Ev::Fail("function-body-fails".into()),
         // its locals are named like the session's variables: x, y, z, p
@@ -339,7 +339,13 @@ fn annotate(v: &SV, annot: &str) -> Option<SV> {
     }
   }
   if let Some(rest) = annot.strip_prefix('[') {
-    // "[k]:r,c"
+    // "[k]" (no dimensions: the shape stays) or "[k]:r,c"
+    if let Some(k) = rest.strip_suffix(']') {
+      return match v {
+        SV::Mat(_, r0, c0, d) => { let mut out = vec![]; for e in d { out.push(scalar(e, k)?); } Some(SV::Mat(k.to_string(), *r0, *c0, out)) }
+        _ => None,
+      };
+    }
     let (k, dims) = rest.split_once("]:")?;
     let (r, c) = dims.split_once(',')?;
     let (r, c): (usize, usize) = (r.parse().ok()?, c.parse().ok()?);
